@@ -106,8 +106,10 @@ type Store struct {
 	Saves           int
 	// ScratchReads: RetrieveValue hands out a view of one reusable buffer (valid until the next read)
 	ScratchReads bool
-	scratch      []byte
-	lastRead     int
+	// NilTrie: reads of an account without any storage return an error (no data trie), as the node's do
+	NilTrie  bool
+	scratch  []byte
+	lastRead int
 }
 
 // NewStore returns an empty store.
@@ -119,6 +121,7 @@ func NewStore(shard uint32) *Store {
 func (s *Store) Clone() *Store {
 	c := NewStore(s.Shard)
 	c.ScratchReads = s.ScratchReads
+	c.NilTrie = s.NilTrie
 	for k, a := range s.Accts {
 		c.Accts[k] = a.Clone()
 	}
@@ -343,6 +346,11 @@ func (h *Handle) RetrieveValue(key []byte) ([]byte, error) {
 		h.store.Faults.HitAddr = append([]byte{}, h.addr...)
 		h.store.Faults.HitKey = string(key)
 		return nil, ErrInjected
+	}
+	if h.store.NilTrie && len(h.st.Storage) == 0 {
+		// an account that has never stored anything has no data trie: the node's account data handler
+		// answers reads with an error then (which is why the library's reads are fail-soft)
+		return nil, errors.New("trie is nil")
 	}
 	v := h.st.Storage[string(key)]
 	if h.store.ScratchReads && len(v) > 0 && len(v) <= 1<<16 {
